@@ -56,6 +56,21 @@ void ABTI_ythread_callback_yield_revive_to(void *arg)
     ythread_callback_yield_impl(arg, ABT_POOL_CONTEXT_OP_THREAD_REVIVE_TO);
 }
 
+/* Handle the requests of a ULT that is being blocked.  The blocked-ULT count of
+ * p_counted_pool already accounts for p_prev.  If a migration request changes
+ * the pool associated with p_prev, the count must move with it: whoever resumes
+ * p_prev decrements the count of the pool p_prev is associated with then. */
+static inline void ythread_handle_request_blocked(ABTI_ythread *p_prev,
+                                                  ABTI_pool *p_counted_pool)
+{
+    ABTI_thread_handle_request(&p_prev->thread, ABT_FALSE);
+    ABTI_pool *p_new_pool = p_prev->thread.p_pool;
+    if (ABTU_unlikely(p_new_pool != p_counted_pool)) {
+        ABTI_pool_inc_num_blocked(p_new_pool);
+        ABTI_pool_dec_num_blocked(p_counted_pool);
+    }
+}
+
 /* Before yield_to, p_prev->thread.p_pool's num_blocked must be incremented to
  * avoid making a pool empty. */
 void ABTI_ythread_callback_thread_yield_to(void *arg)
@@ -105,9 +120,10 @@ void ABTI_ythread_callback_suspend(void *arg)
     ABTI_ythread *p_prev = (ABTI_ythread *)arg;
     /* Increase the number of blocked threads of the original pool (i.e., before
      * migration) */
-    ABTI_pool_inc_num_blocked(p_prev->thread.p_pool);
+    ABTI_pool *p_pool = p_prev->thread.p_pool;
+    ABTI_pool_inc_num_blocked(p_pool);
     /* Request handling.  p_prev->thread.p_pool might be changed. */
-    ABTI_thread_handle_request(&p_prev->thread, ABT_FALSE);
+    ythread_handle_request_blocked(p_prev, p_pool);
     /* Set this thread's state to BLOCKED. */
     ABTD_atomic_release_store_int(&p_prev->thread.state,
                                   ABT_THREAD_STATE_BLOCKED);
@@ -130,7 +146,7 @@ void ABTI_ythread_callback_resume_suspend_to(void *arg)
         ABTI_pool_dec_num_blocked(p_next_pool);
     }
     /* Request handling.  p_prev->thread.p_pool might be changed. */
-    ABTI_thread_handle_request(&p_prev->thread, ABT_FALSE);
+    ythread_handle_request_blocked(p_prev, p_prev_pool);
     /* Set this thread's state to BLOCKED. */
     ABTD_atomic_release_store_int(&p_prev->thread.state,
                                   ABT_THREAD_STATE_BLOCKED);
@@ -168,9 +184,10 @@ void ABTI_ythread_callback_suspend_unlock(void *arg)
     ABTI_ythread *p_prev = p_arg->p_prev;
     ABTD_spinlock *p_lock = p_arg->p_lock;
     /* Increase the number of blocked threads */
-    ABTI_pool_inc_num_blocked(p_prev->thread.p_pool);
+    ABTI_pool *p_pool = p_prev->thread.p_pool;
+    ABTI_pool_inc_num_blocked(p_pool);
     /* Request handling.  p_prev->thread.p_pool might be changed. */
-    ABTI_thread_handle_request(&p_prev->thread, ABT_FALSE);
+    ythread_handle_request_blocked(p_prev, p_pool);
     /* Set this thread's state to BLOCKED. */
     ABTD_atomic_release_store_int(&p_prev->thread.state,
                                   ABT_THREAD_STATE_BLOCKED);
@@ -187,9 +204,10 @@ void ABTI_ythread_callback_suspend_join(void *arg)
     ABTI_ythread *p_prev = p_arg->p_prev;
     ABTI_ythread *p_target = p_arg->p_target;
     /* Increase the number of blocked threads */
-    ABTI_pool_inc_num_blocked(p_prev->thread.p_pool);
+    ABTI_pool *p_pool = p_prev->thread.p_pool;
+    ABTI_pool_inc_num_blocked(p_pool);
     /* Request handling.  p_prev->thread.p_pool might be changed. */
-    ABTI_thread_handle_request(&p_prev->thread, ABT_FALSE);
+    ythread_handle_request_blocked(p_prev, p_pool);
     /* Set this thread's state to BLOCKED. */
     ABTD_atomic_release_store_int(&p_prev->thread.state,
                                   ABT_THREAD_STATE_BLOCKED);
@@ -209,9 +227,10 @@ void ABTI_ythread_callback_suspend_replace_sched(void *arg)
     ABTI_ythread *p_prev = p_arg->p_prev;
     ABTI_sched *p_main_sched = p_arg->p_main_sched;
     /* Increase the number of blocked threads */
-    ABTI_pool_inc_num_blocked(p_prev->thread.p_pool);
+    ABTI_pool *p_pool = p_prev->thread.p_pool;
+    ABTI_pool_inc_num_blocked(p_pool);
     /* Request handling.  p_prev->thread.p_pool might be changed. */
-    ABTI_thread_handle_request(&p_prev->thread, ABT_FALSE);
+    ythread_handle_request_blocked(p_prev, p_pool);
     /* Set this thread's state to BLOCKED. */
     ABTD_atomic_release_store_int(&p_prev->thread.state,
                                   ABT_THREAD_STATE_BLOCKED);
